@@ -94,11 +94,11 @@ struct Sym {
     stake: [u64; 2],
 }
 
-fn any_proof() -> (ConcatenationProof<MD>, Sym) {
+fn any_proof(max_n: usize, max_cnt: usize) -> (ConcatenationProof<MD>, Sym) {
     let n: usize = kani::any();
-    kani::assume(n <= 2);
+    kani::assume(n <= max_n);
     let cnt: [usize; 2] = [kani::any(), kani::any()];
-    kani::assume(cnt[0] <= 2 && cnt[1] <= 2);
+    kani::assume(cnt[0] <= max_cnt && cnt[1] <= max_cnt);
     let idx: [[u64; 2]; 2] = kani::any();
     let stake: [u64; 2] = kani::any();
     let mut signatures = Vec::new();
@@ -173,56 +173,82 @@ macro_rules! c01_stubs {
         #[kani::stub(crate::signature_scheme::bls_multi_signature::signature::BlsSignature::verify_aggregate, stub_verify_aggregate)]
         #[kani::stub(std::backtrace::Backtrace::capture, stub_backtrace)]
         #[kani::stub(std::hash::RandomState::new, stub_random_state)]
+        #[kani::stub(alloc::fmt::format, stub_format)]
         $(#[$m])*
         fn $name() $body
     };
 }
 
-c01_stubs! {
-    #[kani::unwind(6)]
-    fn c01_preliminary_verify_2x2() {
-        let (proof, s) = any_proof();
-        let params = any_params();
-        let msg: [u8; 1] = kani::any();
-        let (root, total): (u8, u64) = (kani::any(), kani::any());
-        let avk = make_avk::<MD>(vec![root], 4, total);
-        let r = proof.preliminary_verify(&msg, &avk, &params);
-        if let Ok((sigs, vks)) = &r {
-            kani::cover!(s.n == 2 && s.cnt[0] == 2 && s.cnt[1] == 1, "accepts a proof with 2 signatures / 3 indices");
-            assert!(preliminary_post(&proof, &s, &params, msg[0], root, total), "C01 preliminary_verify: >= k distinct indices in [0,m), each won by its committed (key, stake); membership checked");
-            // returned operands for the aggregate check are exactly (sigma_j, vk_j) in order
-            assert!(sigs.len() == s.n && vks.len() == s.n, "C01 one (signature, key) pair per contained signature");
-            let mut j = 0;
-            while j < s.n {
-                assert!(sig_tag(&sigs[j]) == 10 + j as u8 && vk_tag(&vks[j]) == 20 + j as u8, "C01 (signature, key) pairs returned in order");
-                j += 1;
-            }
+fn check_preliminary_verify(max_n: usize, max_cnt: usize) {
+    let (proof, s) = any_proof(max_n, max_cnt);
+    let params = any_params();
+    let msg: [u8; 1] = kani::any();
+    let (root, total): (u8, u64) = (kani::any(), kani::any());
+    let avk = make_avk::<MD>(vec![root], 4, total);
+    let r = proof.preliminary_verify(&msg, &avk, &params);
+    if let Ok((sigs, vks)) = &r {
+        kani::cover!(s.n == max_n && s.cnt[0] == max_cnt, "accepts a proof of the maximal shape");
+        assert!(preliminary_post(&proof, &s, &params, msg[0], root, total), "C01 preliminary_verify: >= k distinct indices in [0,m), each won by its committed (key, stake); membership checked");
+        // returned operands for the aggregate check are exactly (sigma_j, vk_j) in order
+        assert!(sigs.len() == s.n && vks.len() == s.n, "C01 one (signature, key) pair per contained signature");
+        let mut j = 0;
+        while j < s.n {
+            assert!(sig_tag(&sigs[j]) == 10 + j as u8 && vk_tag(&vks[j]) == 20 + j as u8, "C01 (signature, key) pairs returned in order");
+            j += 1;
         }
-        std::mem::forget(r);
+    }
+    std::mem::forget(r);
+}
+
+fn check_verify(max_n: usize, max_cnt: usize) {
+    let (proof, s) = any_proof(max_n, max_cnt);
+    let params = any_params();
+    let msg: [u8; 1] = kani::any();
+    let (root, total): (u8, u64) = (kani::any(), kani::any());
+    let avk = make_avk::<MD>(vec![root], 4, total);
+    let r = proof.verify(&msg, &avk, &params);
+    let ok = r.is_ok();
+    std::mem::forget(r);
+    if ok {
+        kani::cover!(s.n == max_n, "accepts a proof with the maximal number of signatures");
+        assert!(preliminary_post(&proof, &s, &params, msg[0], root, total), "C01 verify: preliminary checks hold");
+        let want = AggVerifyCall {
+            msg_len: 2, msg0: msg[0], msg_last: root, n: s.n,
+            vks: [if s.n > 0 { 20 } else { 0 }, if s.n > 1 { 21 } else { 0 }],
+            sigs: [if s.n > 0 { 10 } else { 0 }, if s.n > 1 { 11 } else { 0 }],
+            ok: true,
+        };
+        assert!(unsafe { AGG_LOG } == Some(want), "C01 verify: aggregate BLS verification of msg || root succeeded on exactly the contained (signature, committed key) pairs");
     }
 }
 
 c01_stubs! {
-    #[kani::unwind(6)]
+    #[kani::unwind(8)]
+    fn c01_preliminary_verify_1x2() {
+        check_preliminary_verify(1, 2);
+    }
+}
+c01_stubs! {
+    #[kani::unwind(8)]
+    fn c01_preliminary_verify_2x1() {
+        check_preliminary_verify(2, 1);
+    }
+}
+c01_stubs! {
+    #[kani::unwind(8)]
+    fn c01_verify_2x1() {
+        check_verify(2, 1);
+    }
+}
+c01_stubs! {
+    #[kani::unwind(8)]
+    fn c01_preliminary_verify_2x2() {
+        check_preliminary_verify(2, 2);
+    }
+}
+c01_stubs! {
+    #[kani::unwind(8)]
     fn c01_verify_2x2() {
-        let (proof, s) = any_proof();
-        let params = any_params();
-        let msg: [u8; 1] = kani::any();
-        let (root, total): (u8, u64) = (kani::any(), kani::any());
-        let avk = make_avk::<MD>(vec![root], 4, total);
-        let r = proof.verify(&msg, &avk, &params);
-        let ok = r.is_ok();
-        std::mem::forget(r);
-        if ok {
-            kani::cover!(s.n == 2, "accepts a proof with 2 signatures");
-            assert!(preliminary_post(&proof, &s, &params, msg[0], root, total), "C01 verify: preliminary checks hold");
-            let want = AggVerifyCall {
-                msg_len: 2, msg0: msg[0], msg_last: root, n: s.n,
-                vks: [if s.n > 0 { 20 } else { 0 }, if s.n > 1 { 21 } else { 0 }],
-                sigs: [if s.n > 0 { 10 } else { 0 }, if s.n > 1 { 11 } else { 0 }],
-                ok: true,
-            };
-            assert!(unsafe { AGG_LOG } == Some(want), "C01 verify: aggregate BLS verification of msg || root succeeded on exactly the contained (signature, committed key) pairs");
-        }
+        check_verify(2, 2);
     }
 }
